@@ -23,21 +23,22 @@ func (r Result) String() string { return [...]string{"unsat", "sat", "unknown"}[
 
 // Solver is one live SMT solver process.
 type Solver struct {
-	Name    string
-	tb      *TB
-	cmd     *exec.Cmd
-	in      io.WriteCloser
-	out     *bufio.Reader
-	defined map[int]bool
-	nVars   int
-	log     io.Writer
-	buf     strings.Builder
-	Queries int
-	Time    time.Duration
-	Errors  []string
-	dead    bool
-	kind    string
-	timeout int
+	Name      string
+	tb        *TB
+	cmd       *exec.Cmd
+	in        io.WriteCloser
+	out       *bufio.Reader
+	defined   map[int]bool
+	nVars     int
+	log       io.Writer
+	buf       strings.Builder
+	Queries   int
+	Time      time.Duration
+	Errors    []string
+	dead      bool
+	kind      string
+	timeout   int
+	scopeDecl map[int]bool
 }
 
 const strDatatype = `(declare-datatypes ((Str 0)) (((slit (slit_id Int)) (sip (sip_v Int)) (shp (shp_h Str) (shp_p Int)) (sfmt (sfmt_id Int) (sfmt_a Str) (sfmt_b Str) (sfmt_c Str)) (sint (sint_v Int)))))`
@@ -258,6 +259,7 @@ func (s *Solver) Check(extra []*Term, timeoutMs int) Result {
 }
 
 func (s *Solver) Pop() {
+	s.scopeDecl = nil
 	if !s.dead {
 		s.send("(pop 1)")
 	}
@@ -319,8 +321,12 @@ func (s *Solver) refInScope(t *Term) string {
 	case t.Op == OpConst:
 		return s.tb.head(t, nil)
 	case t.Op == OpVar:
-		if !s.defined[t.ID] {
-			// declaring inside a scope would vanish on pop; declare but do not record
+		if !s.defined[t.ID] && !s.scopeDecl[t.ID] {
+			// a declaration inside a scope vanishes on pop: remember it for this scope only
+			if s.scopeDecl == nil {
+				s.scopeDecl = map[int]bool{}
+			}
+			s.scopeDecl[t.ID] = true
 			s.send(fmt.Sprintf("(declare-const %s %s)", quoteSym(t.Name), t.Sort))
 		}
 		return quoteSym(t.Name)
